@@ -783,7 +783,16 @@ pub fn block_until(desc: &'static str, cond: impl Fn() -> bool + Send + 'static)
     if ext::ACTIVE.load(Ordering::Relaxed) {
         return ext::block_until(desc, cond);
     }
-    if PASSTHROUGH.load(Ordering::Relaxed) || !in_sim() {
+    if PASSTHROUGH.load(Ordering::Relaxed) {
+        // plain threads: sleep on a condition variable that `poke` signals (no spinning: under
+        // Miri a spinning thread costs as much as a working one)
+        let mut g = PT_LOCK.lock().unwrap();
+        while !cond() {
+            g = PT_CV.wait(g).unwrap();
+        }
+        return;
+    }
+    if !in_sim() {
         while !cond() {
             std::thread::yield_now();
         }
@@ -794,6 +803,18 @@ pub fn block_until(desc: &'static str, cond: impl Fn() -> bool + Send + 'static)
     let mut st = sim.st.lock().unwrap();
     st.tasks[me].status = Status::Blocked(desc, Box::new(cond));
     sim.switch(me, st, false);
+}
+
+static PT_LOCK: Mutex<()> = Mutex::new(());
+static PT_CV: Condvar = Condvar::new();
+
+/// Pass-through mode only: something a `block_until` condition reads has changed. (Under the
+/// scheduler conditions are re-evaluated at every decision and this does nothing.)
+pub fn poke() {
+    if PASSTHROUGH.load(Ordering::Relaxed) {
+        let _g = PT_LOCK.lock().unwrap();
+        PT_CV.notify_all();
+    }
 }
 
 /// Data nondeterminism: a value in 0..n chosen by the strategy / the trace.
